@@ -120,3 +120,25 @@ contract("C12.whole_tag_wrapper", file="hed/errors/error_reporter.py", func="hed
              "C12.tag.published_code_and_severity": "result.code == actual_code and result.severity == severity",
          },
          assume=["only the HedTag form of the first argument is covered (groups and plain values are exercised by the bounded workload)"])
+
+# C12/C07 "points at the offending text" for row strings built from cell strings: the combined text holds every cell text VERBATIM (no
+# trimming) at the offset the span translation uses (one comma between cells), and remembers the cells it came from
+contract("C12.hed_string_init_from_contents", file="hed/models/hed_string.py", func="HedString.__init__",
+         params={"self": "HedString", "hed_string": "Str", "hed_schema": "Opaque", "def_dict": "Opaque", "_contents": "Opaque"},
+         returns=None, enc="native", trusted=True,
+         modifies=["self._hed_string"],
+         ensures={"text": "self._hed_string == hed_string"},
+         assume=["HedString.__init__(text, _contents=...) stores the text it is given (constructor body not verified here)"])
+contract("C12.from_hed_strings", file="hed/models/hed_string.py", func="HedString.from_hed_strings",
+         params={"cls": "Opaque", "hed_strings": "List[HedString]"}, returns="HedString", enc="native", also=["C07"],
+         raises={"TypeError": "len(hed_strings) == 0"},
+         lets={"texts": "old([p._hed_string for p in hed_strings])"},
+         ensures={
+             "C12.join.every_cell_text_verbatim_at_its_offset":
+                 "all(result._hed_string[join_off(',', texts, j):join_off(',', texts, j) + len(hed_strings[j]._hed_string)] == hed_strings[j]._hed_string"
+                 " for j in range(len(hed_strings)))",
+             "C12.join.length_is_cells_plus_commas": "len(result._hed_string) == join_off(',', texts, len(hed_strings)) - 1",
+             "C12.join.remembers_its_cells": "len(result._from_strings) == len(hed_strings)"
+                                             " and all(result._from_strings[j] is hed_strings[j] for j in range(len(hed_strings)))",
+             "C12.join.is_a_new_object": "fresh(result)",
+         })
